@@ -109,6 +109,15 @@ Section Driver.
       (X', G', Some (X', G'))
     else (X, G, m).
 
+  (* update_lbfgs_matrices(..., is_force_update=force): a rejected candidate still makes the matrices be rebuilt from the
+     (possibly rewritten) history when force is set *)
+  Definition update_mem_f (force : bool) (xk gk : vec) (X G : list vec) (m : mats) : list vec * list vec * mats :=
+    if curvature_ok xk gk (last_or X []) (last_or G []) then
+      let X' := trim (X ++ [xk]) in
+      let G' := trim (G ++ [gk]) in
+      (X', G', Some (X', G'))
+    else (X, G, if force then Some (X, G) else m).
+
   (* make_X_and_G_respect_strong_wolfe: walk from the newest point backwards, keep a point when the pair it
      forms with the oldest point kept so far passes the test (arguments in the order of the source) *)
   Fixpoint filter_back (rX rG : list vec) (aX aG : list vec) : list vec * list vec :=
@@ -222,7 +231,10 @@ Section Driver.
     if is_f0_target_reached (div f0 (SF.scale _ _ _ _ t2)) ft then ret (false, set_stop s f0 g x X1 G1 t2 MTarget 0)
     else if is_f0_min_change_reached f0 f0_old (ftol c) then ret (false, set_stop s f0 g x X1 G1 t2 MFtol 0)
     else
-      let '(X2, G2, m2) := update_mem x g X1 G1 (s_mats s) in
+      (* with an update function the matrices are rebuilt from the filtered history even if the new pair is rejected;
+         they are reset when that history holds a single point *)
+      let '(X2, G2, m2) := update_mem_f (filt && (1 <? List.length X1)%nat) x g X1 G1
+                             (if filt && (List.length X1 =? 1)%nat then None else s_mats s) in
       let s1 := mklst x f0 g X2 G2 m2 (s_nit s) (s_msg s) (s_succ s) (s_warn s) t2 in
       match u_cb U with
       | None => ret (true, mklst x f0 g X2 G2 m2 (s_nit s + 1) (s_msg s) (s_succ s) (s_warn s) t2)
@@ -311,7 +323,7 @@ Section Driver.
                      end in
       let '(X1, G1, m1) := match X with
                            | [] => ([x], [g], None)
-                           | _ => update_mem x g X G None
+                           | _ => update_mem_f (1 <? List.length X)%nat x g X G None
                            end in
       s <- loop (fuel0 nit0) ft gt (mklst x f0 g X1 G1 m1 nit0 MStart false 2 t3) ;;
       let s := classify gt s in
